@@ -106,7 +106,8 @@ CLAIMED = {
  'C17': dict(
     text='Unit level: the lemma on _get_type_arg_variance (all inputs symbolic incl. both switches) and bounded symbolic execution, '
          'under a symbolic RNG with the four switches symbolic, of gen_type_params, select_type, gen_func_decl (header: type '
-         'parameters, removal of unused ones), gen_class_decl (header) and the type-variable-free rebuilders, in java and kotlin '
+         'parameters, removal of unused ones), gen_class_decl (header), _create_type_params_from_etype and the type-variable-free rebuilders, '
+         'in java and kotlin; the command-line wiring of the four flags (src.args imported in a fresh interpreter for all 16 combinations) '
          '(thorough: all four languages, richer pools): no projection when use-site variance is disabled, no contravariant one when '
          'contravariance is disabled, no bound when bounded type parameters are disabled, no type parameters when parameterized '
          'functions are disabled, function type parameters invariant, variant class parameters only for kotlin/scala. A static scan '
@@ -117,9 +118,10 @@ CLAIMED = {
     design='4/C17'),
  'C11': dict(
     text='Bounded symbolic execution of the four real translators over program families (41 repository fixtures + programs of the '
-         'real generator for 2 (thorough 5) seeds per language): for every member and every history of 2 (thorough <=3) earlier '
-         'translations by the same translator object (other members, the program itself, other-language translators on the same '
-         'program) the text equals the baseline of a fresh translator on a fresh copy and a structural snapshot of the program is '
+         'real generator for 2 (thorough 5) seeds per language + 50 template programs): for every member and every history of 2 '
+         '(thorough <=3) operations (same translator on other members / on the program itself, other-language translators on the program, a '
+         'new translator built from the same options dict, an in-place removal of a declared type) the text equals what a fresh translator '
+         'produces for the program as it is now and a structural snapshot of the program is '
          'unchanged; separately, for every member, cast_numbers and every outcome of the first 2 (4) random draws the translation '
          'consumes, the text equals the baseline.',
     note='trusted: structural snapshot function, family membership; programs outside the families and longer histories outside',
@@ -128,8 +130,9 @@ CLAIMED = {
  'C13': dict(
     text='Bounded symbolic execution over program families (41 fixtures + generated programs) at the three stages the driver saves '
          '(generated, erased, erased+overwritten): after the real dump_program/load_program round trip the copy translates '
-         'identically in four languages, is structurally identical (attribute-level IR diff + context tables), a second dump is '
-         'stable and type erasure gives the same result; mutation equivalence: TypeOverwriting.transform runs on the original under a '
+         'identically in four languages, is structurally identical (attribute-level IR diff + context tables + reverse lookup), a second '
+         'load of the same file after an in-place change gives the saved program, a second dump is stable and type erasure gives the same '
+         'result (template members are rebuilt from constructors so that the original never went through pickle); mutation equivalence: TypeOverwriting.transform runs on the original under a '
          'symbolic RNG (first 1 (thorough 3) draws symbolic: method, node, type parameter), the recorded draws are replayed on the '
          'reloaded copy, candidate-list lengths, outcome, message and resulting IR must coincide.',
     note='trusted: IR diff / snapshot functions (vlib/pipeline.py), family membership; the solver mostly enumerates RNG outcomes here',
@@ -139,7 +142,9 @@ CLAIMED = {
     text='Bounded exploration of the real TypeErasure over the program families (41 fixtures + generated programs): attribute-level '
          'IR diff before/after must consist only of removed var_type/ret_type, type-argument lists flagged inferable (and the '
          'analysis annotation on call nodes); every removed annotation whose initialiser/body the small reference typer can type must '
-         'be a supertype of (or equal to) the re-inferred type. The dfs feasibility kernel is covered by C19. The solver only selects '
+         'be a supertype of (or equal to) the re-inferred type; three targeted obligations on all members incl. 50 template programs: type '
+         'arguments of an initialising instantiation marked inferable must be determined by constructor parameters or a kept declared type, '
+         'reassignments of an erased var must fit the inferred type, a function with an erased return type must not call itself. The dfs feasibility kernel is covered by C19. The solver only selects '
          'members here; the claim is partial (undecided re-inferences are counted in the evidence).',
     note='trusted: vlib/minityper.py (answers only on evident expressions), vlib/pipeline.py irdiff; programs outside the families, '
          'diamond inference and the choice among feasible subsets are outside',
@@ -147,31 +152,35 @@ CLAIMED = {
     design='4/C03'),
  'C04': dict(
     text='Bounded symbolic execution of the real TypeOverwriting over the program families (as generated and after erasure) under a '
-         'symbolic RNG (first 2 (thorough 3) draws of transform(): method, node, ...): when it reports an injected error the IR diff is '
+         'symbolic RNG (the first 3 (thorough 4) selection draws of transform(): method, node, type parameter; on the template members also the '
+         'first draws of the replacement-type search): when it reports an injected error the IR diff is '
          'exactly one declared variable type / return type / type argument, old and new type are unrelated in the declarative relation, '
-         'the message names old type, new type and node, and the reference typer (where it can type the initialiser/body) rejects the '
-         'new annotation; when nothing is injected IR and translation are unchanged.',
+         'the message names old type, new type (for type arguments: the one actually replaced) and node, the recorded type follows the '
+         'declared one, the change is visible in the kotlin/scala text, and the reference typer (where it can type the initialiser/body) '
+         'rejects the new annotation; when nothing is injected IR and translation are unchanged.',
     note='trusted: vlib/minityper.py, vlib/ref.py, irdiff; fixtures that alias one type object between a declaration and its '
          'initialiser give no verdict; overwritten type arguments are checked for shape only',
     technique='bounded symbolic execution of TypeOverwriting under a symbolic RNG over program families; IR diff + declarative relation + small reference typer',
     design='4/C04'),
  'C12': dict(
     text='Bounded symbolic exploration over program families: for every member, every perturbation kind (declared variable type, '
-         'declared return type, diamond flag of an instantiation or generic call, finality) and every site of that kind (solver '
-         'integers) the real translator output before/after is compared: the toggle is visible where the target language can '
+         'declared return type, diamond flag of an instantiation or generic call, finality, an explicit type argument replaced in place) '
+         'and every site of that kind (solver integers) the output of one reused translator before/after is compared with a fresh one: the toggle is visible where the target language can '
          'express it, the change starts at the declaration, and user-class tokens of the type occur strictly more often when the '
          'annotation is carried; on the unperturbed text every declared class/function/field/parameter/variable/type-parameter/'
-         'supertype name and every string/numeric literal occurs and brackets/quotes are balanced.',
+         'supertype name and every string/numeric literal occurs, the type parameters of every function occur in the head of its declaration, and brackets/quotes are balanced.',
     note='trusted: token-level scanners and the per-language expressibility table; semantic equivalence of the text is C02 territory',
     technique='bounded symbolic exploration of single-attribute perturbations with metamorphic comparison of translator output + inventory scan',
     design='4/C12'),
  'C01': dict(
-    text='Modular (assume-guarantee) unit contracts: gen_variable, gen_assignment, gen_conditional, gen_new, gen_variable_decl and the '
-         'generate_expr dispatcher are executed for real under a symbolic RNG (every outcome of every draw) on small symbolic scopes '
+    text='Modular (assume-guarantee) unit contracts: gen_variable, gen_assignment, gen_conditional, gen_new, gen_variable_decl, '
+         'gen_field_access, _gen_func_call (receivers, arity with defaults, explicit type arguments within bounds), gen_lambda, '
+         'gen_is_expr, _select_superclass (no final / unfinished superclass) and the generate_expr dispatcher are executed for real under a symbolic RNG (every outcome of every draw) on small symbolic scopes '
          '(variable types, finality, nested scope, expected type and subtype flag are solver values) with the recursive generate_expr '
          'replaced by a contract stub; typing obligations on what each unit builds and on what it requests from the recursion are judged '
          'by the declarative relation. Whole-program well-typedness follows only by a paper induction over the generated tree; '
-         'gen_func_call/gen_field_access/gen_lambda/gen_is_expr/gen_class_decl units are not built.',
+         'function references, gen_class_decl bodies (fields, overriding) and the array/equality/comparison/logical generators are not built; '
+         'paths on which a unit would create a new class or function give no verdict.',
     note='trusted: contract of generate_expr, declarative relation, reduced built-in pools; composition, Context bookkeeping across units and unbuilt units are outside the claim',
     technique='assume-guarantee unit contracts: bounded symbolic execution of generator units under a symbolic RNG with a contract stub for the recursion',
     design='4/C01'),
@@ -179,7 +188,8 @@ CLAIMED = {
     text='Same unit harnesses as C01 with scoping/mutability/instantiability obligations (every produced variable reference resolves in an '
          'enclosing scope, java lambdas capture only final variables and never assign captured ones, assignment targets are non-final '
          'variables/fields, only regular classes are instantiated with one argument per field, new declarations are registered under a '
-         'fresh name) plus two data obligations: the whole word list against each language keyword file under the case mappings of '
+         'fresh name, receivers and callees resolve, call arity admits defaults, lambda bodies get their own scope with the java capture '
+         'flag, smart casts do not leak) plus two data obligations: the whole word list against each language keyword file under the case mappings of '
          'gen_identifier, and uniqueness of word() for every choice on a reduced pool.',
     note='trusted: own scope resolution over the context tables; composition into whole programs is a paper argument',
     technique='assume-guarantee unit contracts under a symbolic RNG + finite data obligation on the identifier pool',
